@@ -16,8 +16,8 @@ props = {
  "C12": ("sim", "property-based testing (mutated / random bytes at generated points of generated histories; catch_unwind + counting allocator + abort handler + typed twin) and, in the thorough tier, coverage-guided fuzzing (libFuzzer target bridge_bytes with the same oracle inside)", "§7 C12, §14.2"),
  "C13": ("sim", "property-based testing: long cyclic histories; drop counters on task futures; executor / registry occupancy through hooks; timer set/clear cycles through both time APIs with the cleared-id set watched through a hook", "§7 C13, §14.2"),
  "C14": ("data", "generated request descriptions through both APIs vs an independent description of the wire request", "§7 C14"),
- "C15": ("data", "generated shell answers (any status, headers, body, errors) vs classification by status class, encoding_rs and serde_json references", "§7 C15"),
- "C16": ("data", "generated middleware stacks and served redirect graphs vs a reference written from the statement", "§7 C16"),
+ "C15": ("data", "property-based testing: generated shell answers (any status, headers, body incl. grammar-generated JSON with targeted corruption, errors) vs classification by status class, encoding_rs and serde_json references; in the thorough tier also coverage-guided fuzzing (libFuzzer target http_response with the same oracle inside)", "§7 C15, §15.3"),
+ "C16": ("data", "generated middleware stacks (pass / short-circuit / issuing / retrying / header-adding / Redirect, requests with middleware of their own) and served redirect graphs vs a recursive reference written from the statement", "§7 C16, §15.3"),
  "C17": ("data", "generated key-value operations and answers through three APIs, typed core and bridge", "§7 C17"),
  "C18": ("data", "generated interleavings of timer actions vs a per-timer automaton; process-wide id uniqueness", "§7 C18"),
  "C19": ("data", "boundary-weighted conversions vs i128/u128 arithmetic", "§7 C19"),
